@@ -183,3 +183,34 @@ B('c05b_fields_dict_quantifier_literal', ['C05'], 'R05.b',
   (R, _FMT, "        fields = dict(name=name, sep=sep, pattern=cur_patt, arity='')\n        path_seg_pattern = _SEG_TMPL.format(**fields)\n"))
 B('c05b_op_table_from_base_wrong', ['C05'], 'R05.b',
   (R, _OPTY, "_OP_OPTIONALITY_MAP = dict(_OP_ARITY_MAP, **{'?': True})\n"))
+B('c05b_loop_resets_accumulator', ['C05'], 'R05.e',
+  (R, _BUILD, _BUILD_LOOP.replace("        converted = []\n        for raw_segment in raw_segments:\n",
+                                  "        for raw_segment in raw_segments:\n            converted = []\n")))
+B('c05b_optional_empty_extra_condition', ['C05'], 'R05.e',
+  (R, _BUILD, _BUILD_LOOP.replace("            if optional and not value:\n                return None\n", "            if optional and not value and converter is not int:\n                return None\n")))
+T('c05t_single_converter_de_morgan', ['C05'],
+  (R, "        if not value and optional:\n            return None\n        return converter(value.replace('/', ''))\n",
+      "        if value or not optional:\n            return converter(value.replace('/', ''))\n        return None\n"))
+
+# ---- third batch: tuple-valued locals, tuple targets --------------------------------------------------------------
+_STORE = ("        var_converter_map[name] = build_converter(cur_conv,\n                                                  multi=multi,\n"
+          "                                                  optional=optional)\n" + _FMT)
+T('c05t_binding_triple_then_unpacked', ['C05'],
+  (R, _PARSE, "        parsed = match.groupdict()\n        binding = (parsed['name'], parsed['type'] or 'unicode', parsed['op'])\n        name, type_name, op = binding\n"),
+  (R, _DEFTYPE, ''))
+T('c05t_converter_and_segment_in_one_assignment', ['C05'],
+  (R, _STORE, "        var_converter_map[name], path_seg_pattern = (build_converter(cur_conv, multi=multi, optional=optional),\n"
+              "                                                   _SEG_TMPL.format(name=name, sep=sep, pattern=cur_patt, arity=op))\n"))
+T('c05t_inline_lookups_in_calls', ['C05'],
+  (R, _OPTRY, "        if op not in _OP_ARITY_MAP:\n            _tmpl = 'unknown arity operator %r, expected one of %r'\n"
+              "            raise InvalidPattern(_tmpl % (op, _OP_ARITY_MAP.keys()))\n"),
+  (R, "multi=multi,\n                                                  optional=optional)", "multi=_OP_ARITY_MAP[op],\n                                                  optional=_OP_OPTIONALITY_MAP[op])"))
+B('c05b_binding_triple_crossed', ['C05'], 'R05.e',
+  (R, _PARSE, "        parsed = match.groupdict()\n        binding = (parsed['name'], parsed['op'], parsed['type'])\n        name, type_name, op = binding\n"))
+B('c05b_recorded_under_type_name', ['C05'], 'R05',
+  (R, _STORE, "        var_converter_map[type_name], path_seg_pattern = (build_converter(cur_conv, multi=multi, optional=optional),\n"
+              "                                                        _SEG_TMPL.format(name=name, sep=sep, pattern=cur_patt, arity=op))\n"))
+B('c05b_inline_lookups_crossed', ['C05'], 'R05.b',
+  (R, _OPTRY, "        if op not in _OP_ARITY_MAP:\n            _tmpl = 'unknown arity operator %r, expected one of %r'\n"
+              "            raise InvalidPattern(_tmpl % (op, _OP_ARITY_MAP.keys()))\n"),
+  (R, "multi=multi,\n                                                  optional=optional)", "multi=_OP_OPTIONALITY_MAP[op],\n                                                  optional=_OP_ARITY_MAP[op])"))
